@@ -365,6 +365,19 @@ func TestC07Matrix(t *testing.T) {
 		descs = append(descs, hdr+"method M() -> ()\nerror Bad (why: "+ty+")\n")
 		descs = append(descs, hdr+"type A (v: "+ty+")\nmethod M(a: A) -> (b: ?A)\n")
 	}
+	// anonymous structs nested d levels deep (plain, and through optional / array / map), in every position
+	for _, d := range []int{2, 4, 5, 6, 7, 8, 9, 10, 13, 17} {
+		for v, open := range []string{"(n: ", "?(n: [](m: "} {
+			depth := d
+			closeTok := ")"
+			if v == 1 {
+				depth, closeTok = (d+1)/2, "))"
+			}
+			ty := strings.Repeat(open, depth) + "int" + strings.Repeat(closeTok, depth)
+			descs = append(descs, hdr+"method M(p: "+ty+") -> (r: "+ty+")\n")
+			descs = append(descs, hdr+"type A "+strings.TrimPrefix(ty, "?")+"\nmethod M(a: A) -> ()\nerror Bad "+strings.TrimPrefix(ty, "?")+"\n")
+		}
+	}
 	var kw strings.Builder
 	for i, k := range append(append([]string{}, goKeywords...), generatorLocals...) {
 		if k == "error" {
@@ -376,6 +389,10 @@ func TestC07Matrix(t *testing.T) {
 		kw.WriteString(k + ": int")
 	}
 	descs = append(descs,
+		// one name shared by members of different kinds: rejected by the parser (then the generator just fails cleanly); were it ever accepted, the output would have to compile
+		"interface a.b\ntype Status (a: int)\nmethod Status() -> (s: Status)\n",
+		"interface a.b\nmethod Busy() -> ()\nerror Busy\n",
+		"interface a.b\ntype Gone (a: int)\nmethod M() -> ()\nerror Gone (g: Gone)\n",
 		"interface org.example.typeless\nmethod M() -> ()\nerror Plain\nerror WithArgs (a: int)\n",
 		"interface org.example.with-dash.sub-x\nmethod M() -> ()\n",
 		"interface Org.Example.UPPER\nmethod M() -> ()\n",
